@@ -160,7 +160,7 @@ def drive(task):
                 yield from build_events(src)
     elif k == "rnd_pda":
         for i in range(task["count"]):
-            yield from build_events({"kind": "pda_rnd", "seed": task["seed"] * 100000 + i})
+            yield from build_events({"kind": "pda_rnd", "seed": task["seed"] * 100000 + i, "multichar": 1})
     elif k == "spelling_pda":
         for m in range(task["lo"], task["hi"]):
             yield from build_events({"kind": "pda_spelling", "mask": m}, ns=[3, 4] if m % 4 == 1 else [3], opt={"limit": 30})
